@@ -168,6 +168,11 @@ func (propC04) Gen(r *Rng, idx int, tier string) *Scenario {
 		for _, oi := range optInfos(sc.Decl) {
 			if oi.O.Env != "" && ar.Chance(1, 3) {
 				sc.World.Env[envFullOf(sc.Decl, oi)] = BStr(ar.Pick([]string{iniValText(ar, oi.O), "", "x!y", "\xff", "-", "\""}))
+				if oi.O.EnvDelim != "" && ar.Chance(1, 3) {
+					// list texts with awkward neighbours of the delimiter
+					dl := oi.O.EnvDelim
+					sc.World.Env[envFullOf(sc.Decl, oi)] = BStr(ar.Pick([]string{"a\\" + dl + "b", dl, dl + dl, "a" + dl, dl + "b\\", "\\" + dl + "\\" + dl}))
+				}
 			}
 		}
 	}
